@@ -1,5 +1,12 @@
 """C09 - Text normal form and preprocessing preserve meaning."""
-from checklib import cbytes, cbool, clist, cpair, cN
+from checklib import cbool, clist, cpair, cN
+
+
+def cbytes(l):
+    """a byte string as one number (Run/C09.v bN): far fewer tokens for Coq to read than a list"""
+    if not l:
+        return "[]"
+    return "(bN %d%%nat 0x%x)" % (len(l), int.from_bytes(bytes(l), "little"))
 
 ID = "C09"
 HARNESS = "c09"
@@ -55,9 +62,12 @@ def _dump(d):
 def to_coq(c):
     if c["kind"] == "line":
         t = c["line"][0] if c["line"] else 0
-        return "CLine %d %s %d %s %s %s %s %s %s" % (
-            t, cbool(c["v2"]), c["serial"], cbool(c["wf"]), cbytes(c["line"]),
-            _step(c["s1"]), _step(c["s2"]), _step(c["s3"]), _tables(c))
+        # identical steps are written once (most lines are at their fixed point after one step)
+        s1, s2, s3 = _step(c["s1"]), _step(c["s2"]), _step(c["s3"])
+        n2 = "s1" if s2 == s1 else s2
+        n3 = "s1" if s3 == s1 else ("s2" if s3 == s2 else s3)
+        return "(let s1 := %s in let s2 := %s in CLine %d %s %d %s %s s1 s2 %s %s)" % (
+            s1, n2, t, cbool(c["v2"]), c["serial"], cbool(c["wf"]), cbytes(c["line"]), n3, _tables(c))
     return "CFile %s %d %d %s %s %s %s %s %s %s %s %s %s" % (
         cbool(c["v2"]), c["serial"], c["pre_serial"], cbool(c["wf"]),
         clist([cbytes(l) for l in c["file"]]),
